@@ -18,6 +18,7 @@ ENGINES = {
     'config': dict(quick=3000, thorough=80000),
     'proxyflow': dict(quick=250, thorough=5000),
     'forward': dict(quick=120, thorough=3000),
+    'authflow': dict(quick=150, thorough=4000),
 }
 
 PROPS = {
@@ -27,8 +28,13 @@ PROPS = {
     'C04': dict(spec_mods=['SsoSpec.C04'], engines=['proxyflow']),
     'C05': dict(spec_mods=['SsoSpec.C05'], engines=['proxyflow']),
     'C06': dict(spec_mods=['SsoSpec.C06'], engines=['proxyflow']),
+    'C07': dict(spec_mods=['SsoSpec.C07'], engines=['authflow']),
+    'C08': dict(spec_mods=['SsoSpec.C08'], engines=['authflow']),
+    'C09': dict(spec_mods=['SsoSpec.C09'], engines=['authflow']),
+    'C10': dict(spec_mods=['SsoSpec.C10'], engines=['authflow']),
     'C11': dict(spec_mods=['SsoSpec.C11'], engines=['validators', 'proxyflow']),
-    'C18': dict(spec_mods=['SsoSpec.C18'], engines=['proxyflow']),
+    'C19': dict(spec_mods=['SsoSpec.C19'], engines=['authflow', 'proxyflow']),
+    'C18': dict(spec_mods=['SsoSpec.C18'], engines=['proxyflow', 'authflow']),
     'C12': dict(spec_mods=['SsoSpec.C12'], engines=['forward']),
     'C13': dict(spec_mods=['SsoSpec.C13'], engines=['proxyflow']),
     'C14': dict(spec_mods=['SsoSpec.C14'], engines=['config']),
@@ -45,9 +51,14 @@ PF_FLOOR = ['proxyflow:noCookie', 'proxyflow:invalidSession', 'proxyflow:wrongId
             'proxyflow:signout', 'proxyflow:robots', 'proxyflow:cb/login', 'proxyflow:cb/denied', 'proxyflow:cb/mismatch', 'proxyflow:cb/sameCiphertext',
             'proxyflow:cb/badState', 'proxyflow:cb/noCsrfCookie', 'proxyflow:cb/badCsrf', 'proxyflow:cb/redeemFailed', 'proxyflow:cb/emptyEmail',
             'proxyflow:cb/noCode', 'proxyflow:cb/errorParam', 'proxyflow:https-redirect', 'proxyflow:favicon/fresh/ok', 'proxyflow:favicon/noCookie']
+AF_FLOOR = ['authflow:signin/code', 'authflow:signin/page', 'authflow:signin/error/401', 'authflow:signin/error/403', 'authflow:gate/SignIn/400', 'authflow:gate/SignIn/401',
+            'authflow:gate/SignIn/405', 'authflow:gate/SignOut/400', 'authflow:signout/page', 'authflow:signout/redirect', 'authflow:signout/revoke-failed',
+            'authflow:redeem/tokens', 'authflow:redeem/error', 'authflow:gate/Redeem/401', 'authflow:gate/Refresh/401', 'authflow:gate/ValidateToken/401',
+            'authflow:gate/GetProfile/401', 'authflow:callback/session', 'authflow:callback/error/500', 'authflow:callback/error/403', 'authflow:callback/error/400',
+            'authflow:outside-service']
 FW_FLOOR = ['forward:authenticated', 'forward:skip-auth', 'forward:connection-nominates-tracked', 'forward:session-cookie-present', 'forward:rsa/verifies', 'forward:rsa/mismatch', 'forward:hmac/on']
 FLOORS = {
-    'C03': FW_FLOOR, 'C12': FW_FLOOR,
+    'C03': FW_FLOOR, 'C12': FW_FLOOR, 'C07': AF_FLOOR, 'C08': AF_FLOOR, 'C09': AF_FLOOR, 'C10': AF_FLOOR, 'C19': AF_FLOOR + PF_FLOOR,
     'C01': PF_FLOOR, 'C04': PF_FLOOR, 'C05': PF_FLOOR, 'C13': PF_FLOOR, 'C06': PF_FLOOR, 'C18': PF_FLOOR,
     'C14': ['config:loaded', 'config:loaded/skip-regex', 'config:error/missingService', 'config:error/missingFrom', 'config:error/missingTo',
             'config:error/badFromUrl', 'config:error/badFromRegex', 'config:error/unknownType', 'config:error/badSkipRegex',
@@ -89,11 +100,16 @@ PF_TB = ["the fake sso-auth, the recording backends and the in-process driving o
             "Go regexp (skip-auth patterns, rewrite routes), strings.ToLower, path.Clean (gorilla/mux path cleaning) and http.Redirect's Location rewriting are oracles computed by calling the libraries directly",
             "sealed cookies are idealised as in C02: LoadSession yields a session only for a value sealed under the proxy's secret",
             "modelled: oauthproxy.go Authenticate/Proxy/AuthenticateOnly/Favicon/OAuthCallback/SignOut/Handler route table, providers/sso.go Redeem stamping, ValidateGroup, RefreshSession, ValidateSessionState, sessions deadlines and grace, hostmux.Router; not modelled: logging, statsd, the reverse proxy itself (C03/C12)"]
+AF_TB = ["the real sso-auth handler tree (auth.NewAuthenticatorMux with the real Google and Okta provider code, GroupCache and SingleFlight wrappers, wrapped in http.TimeoutHandler and NewLoggingHandler as cmd/sso-auth/main.go does), driven in-process with requests parsed by net/http's own request reader",
+            "the identity provider is scripted: the providers' package-level HTTP client gets a RoundTripper (through an overlay accessor) that answers token / userinfo / tokeninfo / introspect / revoke calls per step and logs them",
+            "net/url.Parse (Host, Hostname), base64 decoding of sig/state, strconv.ParseInt of ts, strings.ToLower and JSON/base64 decoding of id_token segments are oracles computed by calling the libraries (and the two real predicates validRedirectURI / validSignature through accessors, for the oracle of nested values only); the HMAC is idealised (PRF) — the harness mints signatures with its own HMAC implementation call",
+            "an independent RFC 3986 authority/host splitter plus a browser-style reading (backslash as slash, tab/CR/LF stripped) written in the harness judges every Location header for C07's monitor",
+            "modelled: middleware.go gates, authenticator.go authenticate/SignIn/ProxyOAuthRedirect/SignOut/Redeem/OAuthCallback decision logic, google.go/okta.go Redeem and error classes; the route table is regenerated; not modelled: Refresh/GetProfile/ValidateToken bodies (gating only), Cognito, static files, the sign-in page's form target"]
 FW_TB = ["the real sso-proxy tree on a loopback socket in front of a recording backend on a loopback socket; requests are written byte by byte by the harness; net/http request parsing (canonical header names, Cookie parsing and Cookie.String rendering, Connection token splitting) are oracles computed by calling the library on the same bytes",
             "httputil.ReverseProxy's request-header editing is modelled for the tracked headers only (Connection-nominated and hop-by-hop removal); Director/X-Forwarded-For/User-Agent handling and net/http transport framing are not modelled (the backend's own record is the ground truth for Content-Length)",
             "modelled: Authenticate's header injection, deleteCookie, the signing document of request_signer.go; RSA-PKCS1v15/SHA-256 and HMAC-SHA256 are idealised (a signature verifies iff the signing documents are equal) — the backend verifies the real signatures with the real published key"]
 TB = {
-    'C03': FW_TB, 'C12': FW_TB,
+    'C03': FW_TB, 'C12': FW_TB, 'C07': AF_TB, 'C08': AF_TB, 'C09': AF_TB, 'C10': AF_TB, 'C19': AF_TB + PF_TB,
     'C01': PF_TB, 'C04': PF_TB, 'C05': PF_TB, 'C13': PF_TB, 'C06': PF_TB + ['C06 additionally rests on C02 (sealing model) for "different ciphertexts"; the same-host claim for the recorded URI relies on gorilla/mux path cleaning and net/url serialisation, which are oracles here (differential only): see level_note'], 'C18': PF_TB + ['net/http TimeoutHandler and httputil.ReverseProxy header copying are modelled (Harden.lean) from reading and tied differentially; the sso-auth half of C18 is checked by the authflow engine'],
     'C14': ["yaml.v2 parsing is not modelled: the harness renders a generated structured document to YAML for the real loader and ships the structured form to the model",
             "mergo v0.3.7 is modelled for the struct shapes it is applied to (override / fill; pointer, slice, map, scalar rules) and tied differentially; url.Parse, regexp.Compile and hmacauth's digest table are oracles (theorems hold for every behaviour)",
@@ -119,9 +135,10 @@ TB = {
 }
 
 PF_RULE = "proxyflow: real proxy with three upstreams (static domain-rule + skip-auth regexes; static group-rule with its own provider_slug; rewrite route with address+domain rules), rules of the first upstream drawn over all subsets of {addresses, domains, groups} incl. wildcards and case variants, TTLs varied; four modes: (a) decision table: 6-15 independent requests with cookie kind (none, garbage, other key, sealed flow record, sealed session with slug/host/lifetime/refresh/valid/grace/e-mail/refresh-token each independently good or bad) x request (hosts incl. unrouted/case/port variants, 18 targets incl. encoded, dot-segment, double-slash, backslash, fixed routes; XHR; methods) x authenticator answers (ok, 401, 429, 503, other statuses, transport error, malformed JSON independently at /validate, /profile, /refresh, group answers); (b) login then a history of 4-12 requests on the browser's jar with gaps around V, token TTL, G and L, faults, replays of older cookies; (c) flows: two starts then 3-7 callbacks with state/CSRF kinds (own, stale, other, same, garbage, sealed session, other key, absent), codes, error params, redeem outcomes, e-mails; fixed prelude with one representative per model branch; non-trivial = an upstream was reached; distinct = distinct case hash"
+AF_RULE = "authflow: fixed prelude of ~250 steps (every gate failure per route; 28 redirect-URI corner cases each at /sign_in and /sign_out: userinfo, ports, case, trailing dot, look-alike suffixes, scheme-relative, odd schemes, backslash, control characters, IPv6 zone, percent-encoding; signature manglings: wrong/absent/other-URI/other-secret MAC, re-split digit, std-alphabet base64, ts just inside/outside 300 s, future, non-numeric; cookie kinds; IdP validate/refresh outcomes per error class; /start with good/bad nested redirect; /callback with id_tokens of 0-5 segments, bad base64/JSON, unverified/empty e-mail, token endpoint statuses/transport/raw bodies, Okta userinfo variants, nonce/CSRF/state manglings; sign-out GET/POST x cookie kinds x revoke outcomes incl. already-revoked, then reuse of the old cookie; back-channel routes x credential placements (form, query, header, duplicated, prefix, upper-case, empty, missing) x code kinds) then random recombination: 6-15 prelude steps per case with redirect URI, signature mangling, ts offset, session e-mail/deadlines, id_token, userinfo, Accept header and provider mutated; non-trivial = a request passed all gates of its route; distinct = distinct case hash"
 FW_RULE = "forward: cases of 3-8 raw requests each against one upstream with signer on/off x HMAC key on/off x inject headers: authenticated / skip-auth / unauthenticated; identity and covered headers in any spelling and multiplicity incl. empty values; Connection headers nominating protected/covered headers; 0-2 Cookie lines built from pieces (other cookies, quoted values, spaces, commas, the session cookie first/middle/last/duplicated, a forged session cookie, look-alike names); methods; encoded paths and queries; no/small/binary/64 KiB bodies, sized or chunked, explicit Content-Length: 0; fixed prelude; non-trivial = the request reached the backend; distinct = distinct case hash"
 RULES = {
-    'C03': FW_RULE, 'C12': FW_RULE,
+    'C03': FW_RULE, 'C12': FW_RULE, 'C07': AF_RULE, 'C08': AF_RULE, 'C09': AF_RULE, 'C10': AF_RULE, 'C19': AF_RULE + ' || ' + PF_RULE,
     'C01': PF_RULE, 'C04': PF_RULE, 'C05': PF_RULE, 'C13': PF_RULE, 'C06': PF_RULE, 'C18': PF_RULE + ' || C18 monitor runs on every response of every step; dedicated secure-cookie case with an upstream that sets, duplicates and case-varies the protected headers, header_overrides, cookie domain',
     'C14': "documents of 1-3 services x default/prod/staging blocks (present, absent, null) x optional options (each field independently set; maps with overlapping keys and empty values; bad regex; per-upstream provider_slug) x 0-2 extra routes x route types (simple, rewrite, unknown) x from/to incl. template variables, unparsable hosts, missing; cluster prod/staging/default; deployment defaults each on/off; HMAC key specs good/bad; fixed prelude with one document per error kind; non-trivial = loading succeeded with at least one upstream; distinct = distinct case hash",
     'C02': "per case one value (session or flow record; empty, Unicode, NUL, 300-byte fields, up to 40 groups) sealed twice under key 1 and once under key 2; variants of the sealed string: every single-bit flip and every truncation (first 3 cases; 48 random flips and sampled truncations otherwise), byte truncations/prefix drops, extensions/prependings by alphabet chars, '=', CR, LF, space, NUL, std alphabet, padded forms, CR/LF insertion at 5 positions and between all chars, every trailing-bit variant of the last character, nonce/body swap, nonce only, body only, nonce from the other seal, body from the other key, empty, random bytes/strings; non-trivial = always (each case opens the genuine value); distinct = distinct case hash",
@@ -133,6 +150,11 @@ RULES = {
 
 PF_ASSUME = ["AEAD ideal as in C02", "the authenticator's answers within one request are the scripted ones (one answer per endpoint per request)", "no deadline equals the request instant exactly"]
 ASSUME = {
+    'C07': ["HMAC-SHA256 is a PRF (a MAC the authenticator accepts was produced with the proxy's secret over the same byte string)", "url.Parse as oracle for Host/Hostname; the monitor's RFC/browser host reading is an independent re-implementation"],
+    'C08': ["ideal AEAD (C02) for authorization codes", "ParseForm succeeds on generated requests"],
+    'C09': ["ideal AEAD (C02) for the authenticator cookie", "the scripted IdP answers stand for the provider's current verdict"],
+    'C10': ["encoding/json and base64 decoding of provider bodies are oracles", "Cognito is not exercised (AWS SDK); its Redeem is covered by reading only"],
+    'C19': ["a revoked token no longer validates/refreshes at the IdP (the single assumption about the IdP)", "as C04/C05 for the proxy half"],
     'C03': ["net/http parsing as oracle", "the session presented by authenticated requests is valid and fresh (gates are C01's business)"],
     'C12': ["RSA/HMAC idealised in the theorems; verified for real by the backend", "upstream `to` is a bare host (as in the property)"],
     'C01': PF_ASSUME, 'C06': PF_ASSUME, 'C18': PF_ASSUME, 'C04': PF_ASSUME + ["histories are per browser: the client may present any cookie of its own chain, nothing else opens (C02)"], 'C05': PF_ASSUME + ["grace window statements are per session value: replaying a pre-outage cookie restarts the window (outside the property's one-browser quantifier; see DESIGN)"], 'C13': PF_ASSUME,
